@@ -320,9 +320,8 @@ def q8(rnd, lo=-40, hi=160):
     return rnd.randint(lo, hi) / 8.0
 
 
-def gen_intervals(rnd, g, S, E, pts):
-    """interval data relative to the points `pts` (aware/naive Timestamps of the grid the data is applied to)"""
-    tz = g['tz']
+def _interval_times(rnd, S, pts):
+    """interval limits (Timestamps, whole seconds) relative to the points `pts`: (starts, ends, style)"""
     pts = list(pts)
     if len(pts) == 0:
         pts = [S]
@@ -368,6 +367,13 @@ def gen_intervals(rnd, g, S, E, pts):
             starts, ends = [a for a, _ in z], [b for _, b in z]
     starts = [fl(s) for s in starts]
     ends = [fl(e) for e in ends]
+    return starts, ends, style
+
+
+def gen_intervals(rnd, g, S, E, pts):
+    """interval data relative to the points `pts` (aware/naive Timestamps of the grid the data is applied to)"""
+    tz = g['tz']
+    starts, ends, style = _interval_times(rnd, S, pts)
     with_end = rnd.random() < 0.55
     # how the dates are given
     if tz is None:
@@ -508,6 +514,222 @@ def gen_beyond_window(rnd, pl, S, E, allp, k, tz):
     return {'s': _wspec(rnd, fl(s), tz), 'e': _wspec(rnd, fl(e), tz), 'placement': pl}
 
 
+def gen_clip_case(rnd):
+    """stream `cclip`: a coarse restricted grid whose window reaches BEYOND THE END of the reference grid (the asset outlives the
+    optimisation horizon) while the end of the reference grid lies OFF the window's raster of coarse steps (start + j*freq): the
+    last coarse interval that still holds fine steps straddles the end of the horizon.  Varied: fine / coarse frequency (whole
+    multiples, days in daylight-saving zones, weeks), zone, where the window starts (on a grid point - so the raster is shifted
+    against midnight -, at the grid start, before it), how far it reaches beyond (a part of a coarse step, whole steps, many),
+    and with probability 1/4 a horizon end ON the raster (the control).  Optionally interval data on the coarse grid."""
+    for _ in range(40):
+        g = gen_grid(rnd, small=rnd.random() < 0.6)
+        if g['malformed'] or g['freq'] in ('MS', 'W'):
+            continue
+        S, E, allp = _grid_points(g)
+        if allp is None or len(allp) < 3:
+            continue
+        break
+    else:
+        return gen_case(rnd, kind='coarse')
+    tz = g['tz']
+    T = len(allp) - 1
+    fine = allp[1] - allp[0]
+    cands = [c for c in COARSE_OF[g['freq']] if c not in ('MS', '45min') and freq_ns(c) > freq_ns(g['freq'])]
+    want_off = rnd.random() < 0.75
+    best = None
+    for _ in range(12):
+        cf = rnd.choice(cands)
+        k = pd.Timedelta(nanoseconds=freq_ns(cf))
+        r = rnd.random()
+        if r < 0.6:
+            s = allp[rnd.randint(0, max(0, min(T - 1, int(k / fine) + 2)))]
+        elif r < 0.8:
+            s = S
+        else:
+            s = S - k * rnd.choice([1, 2]) - fine * rnd.choice([0, 1, 2])
+        e = E + k * rnd.choice([0, 1, 1, 2, 5]) + k * rnd.choice([0, 0.25, 0.5, 0.75, 1]) + fine * rnd.choice([0, 0, 1])
+        if not (e > E):
+            e = E + k
+        s, e = fl(s), fl(e)
+        try:
+            cuts = own_raster(s, e, cf, tz)
+        except Exception:
+            continue
+        off = _ns(E) not in set(cuts)
+        best = (cf, s, e)
+        if off == want_off:
+            break
+    if best is None:
+        return gen_case(rnd, kind='coarse')
+    cf, s, e = best
+    case = {'kind': 'coarse', 'grid': g, 'cfreq': cf, 'cwindow': {'s': _wspec(rnd, s, tz), 'e': _wspec(rnd, e, tz), 'placement': 'clip_end'},
+            'focus': 'coarse_clip'}
+    if rnd.random() < 0.3:
+        case['kind'] = 'values_c'
+        inwin = [p for p in allp[:-1] if s <= p < e]
+        case['data'] = gen_intervals(rnd, g, S, E, inwin or [S])
+    return case
+
+
+RES = ['D', 'h', 'm', 's', 'ms', 'us', 'ns']            # numpy datetime64 resolutions, coarse to fine
+RES_NS = {'D': 86400 * 10 ** 9, 'h': 3600 * 10 ** 9, 'm': 60 * 10 ** 9, 's': 10 ** 9, 'ms': 10 ** 6, 'us': 10 ** 3, 'ns': 1}
+PD_UNITS = ['s', 'ms', 'us', 'ns']                        # resolutions pandas Timestamps / DatetimeIndex can have
+
+
+def _finer(rnd, res, among=RES):
+    """the resolution itself (every second time) or a finer one of `among`"""
+    c = [r for r in among if RES_NS[r] <= RES_NS[res]]
+    return res if (res in c and rnd.random() < 0.6) else rnd.choice(c)
+
+
+def gen_carrier(rnd, n, res, aware, with_end, seq_only=False):
+    """how a sequence of n instants (all whole multiples of resolution `res` on the wall clock; aware: with zone) is handed over"""
+    if aware:
+        forms = ['list:timestamp', 'list:timestamp', 'list:datetime', 'index', 'index', 'array:obj']
+        if n == 1 and not seq_only:
+            forms += ['scalar:timestamp', 'scalar:datetime']
+    else:
+        forms = ['array:np'] * 5 + ['list:np', 'list:np', 'index', 'index', 'list:datetime', 'list:timestamp', 'array:obj']
+        if res == 'D':
+            forms += ['list:date', 'list:date']
+        if with_end:
+            forms += ['list:str']          # (implicit ends need date arithmetic: strings only with explicit ends)
+        if n == 1 and not seq_only:
+            forms += ['scalar:np', 'scalar:np', 'scalar:timestamp', 'scalar:datetime'] + (['scalar:str'] if with_end else []) + (['scalar:date'] if res == 'D' else [])
+    form = rnd.choice(forms)
+    c = {'form': form}
+    if form.endswith(':np'):
+        c['res'] = _finer(rnd, res)
+    elif form == 'index' or form.endswith(':timestamp') or form == 'array:obj':
+        c['res'] = _finer(rnd, res if res in PD_UNITS else 's', PD_UNITS)
+    return c
+
+
+def carry(specs, c):
+    """the python object that carries the instants `specs` (date specs) in the form c.  Conversions are explicit: numpy arrays
+    are made from integer counts of the resolution since the epoch, never by parsing or by pandas' inference."""
+    ts = [pd.Timestamp(x['utc'], tz='UTC').tz_convert(x['tz']) if x['as'] == 'aware' else pd.Timestamp(x['iso']) for x in specs]
+    form, res = c['form'], c.get('res')
+    kind, what = form.split(':') if ':' in form else (form, None)
+
+    def one(t):
+        if what == 'np':
+            wall = _ns(t.tz_localize(None)) if t.tzinfo is not None else _ns(t)
+            if wall % RES_NS[res] != 0:
+                raise RuntimeError('generator: %s is not a whole number of %s' % (t, res))
+            return np.int64(wall // RES_NS[res]).astype('datetime64[%s]' % res)
+        if what == 'datetime':
+            return t.to_pydatetime()
+        if what == 'date':
+            if t != t.normalize() or t.tzinfo is not None:
+                raise RuntimeError('generator: %s is not a naive date' % t)
+            return t.date()
+        if what == 'str':
+            return t.isoformat()
+        return t.as_unit(res) if res else t
+    if kind == 'index':
+        return pd.DatetimeIndex(ts).as_unit(res)
+    if kind == 'scalar':
+        return one(ts[0])
+    if kind == 'array':
+        if what == 'np':
+            return np.array([int(one(t).astype('int64')) for t in ts], dtype='int64').astype('datetime64[%s]' % res)
+        a = np.empty(len(ts), dtype=object)
+        for i, t in enumerate(ts):
+            a[i] = t.as_unit(res)
+        return a
+    return [one(t) for t in ts]
+
+
+def gen_carrier_case(rnd):
+    """stream `vcar`: interval data whose limits are handed over in every container pandas' Timestamp covers - numpy datetime64
+    arrays and scalars of ANY resolution ([D] [h] [m] [s] [ms] [us] [ns]), lists of datetime / date / Timestamp / datetime64 /
+    ISO strings, DatetimeIndex and Timestamps of non-default resolution, object arrays, start and end in different containers -
+    on plain, restricted and coarse grids with and without zone, with explicit and implicit ends.  The limits are whole multiples
+    of the resolution drawn (days, hours, ...), so that every container holds exactly the same instants; the expected result is
+    computed from the instants, never from the container."""
+    for _ in range(40):
+        tz = rnd.choice(ZONES)
+        freq = rnd.choice(['h', 'h', 'h', '15min', '30min', '2h', '4h', 'd', 'd'])
+        unit = rnd.choice(['h', 'h', 'd', 'min'])
+        start = pd.Timestamp(rnd.choice(DST_DATES[tz] + PLAIN_DATES))
+        if freq == 'd':
+            start = start + pd.Timedelta(hours=rnd.choice([0, 0, 0, 6]))
+            end = start + pd.Timedelta(days=rnd.randint(2, 9))
+        else:
+            start = start + pd.Timedelta(hours=rnd.choice([0, 0, 0, 6, 22, 1]))
+            nst = min(200, max(2, int(rnd.choice([6, 20, 36, 50, 75, 100, 130]) * 3600 // TICK[freq])))
+            end = start + pd.Timedelta(seconds=TICK[freq] * rnd.randint(max(2, nst // 2), nst))
+        if _valid_local(start, tz) and _valid_local(end, tz):
+            break
+    g = {'start': dspec(start, 'datetime'), 'end': dspec(end, 'datetime'), 'freq': freq, 'unit': unit, 'tz': tz,
+         'wacc': rnd.choice([None, None, 0.05]), 'malformed': None}
+    S, E, allp = _grid_points(g)
+    if allp is None or len(allp) < 3:
+        return gen_case(rnd, kind='values')
+    kind = rnd.choice(['values', 'values', 'values', 'values_r', 'values_c'])
+    case = {'kind': kind, 'grid': g, 'focus': 'carrier'}
+    pts = allp[:-1]
+    if kind == 'values_r':
+        case['window'] = gen_window(rnd, g, S, E, allp, placement=rnd.choice(['inside', 'prefix', 'suffix', 'offgrid', 'straddle_end']))
+    elif kind == 'values_c':
+        cf = rnd.choice([c for c in COARSE_OF[freq] if c not in ('MS', '45min') and freq_ns(c) > freq_ns(freq)])
+        case['cfreq'] = cf
+        case['cwindow'] = gen_window(rnd, g, S, E, allp, placement=rnd.choice(['none_both', 'equal', 'straddle_both', 'suffix', 'none_end']),
+                                     coarse_step=pd.Timedelta(nanoseconds=freq_ns(cf)))
+    w = case.get('window') or case.get('cwindow')
+    if w is not None:
+        try:
+            ws = loc_ctor(mk(w['s']), tz) if w['s'] else S
+            we = loc_ctor(mk(w['e']), tz) if w['e'] else E
+            sub = pts[(pts >= ws) & (pts < we)]
+            pts = sub if len(sub) else pts
+        except Exception:
+            pass
+    starts, ends, style = _interval_times(rnd, S, pts)
+    with_end = rnd.random() < 0.6
+    aware = tz is not None and rnd.random() < 0.25
+    res = rnd.choice(['D', 'D', 'D', 'h', 'h', 'm', 's', 's', 'ms', 'us', 'ns'])
+    span = E - S
+    if res == 'D' and span < pd.Timedelta(days=2):
+        res = 'h'
+    u = pd.Timedelta(nanoseconds=RES_NS[res])
+
+    def wall(ts):
+        """the limit on the wall clock of the grid's zone, moved down to a whole multiple of the resolution (and to a time that
+        exists exactly once there)"""
+        n_ = ts.tz_localize(None) if ts.tzinfo is not None else ts
+        n_ = n_.floor(u) if res not in ('us', 'ns') else n_
+        for _ in range(4):
+            if _valid_local(n_, tz):
+                break
+            n_ = n_ + pd.Timedelta(hours=1) if res != 'D' else n_ + pd.Timedelta(days=1)
+        return n_
+    ws_, we_ = [wall(t) for t in starts], [wall(t) for t in ends]
+    if style != 'reversed':    # an interval that was not empty keeps at least one unit of the resolution
+        we_ = [b if (b > a or not (e0 > s0)) else wall(a + u) for a, b, s0, e0 in zip(ws_, we_, starts, ends)]
+    if aware:
+        zone = rnd.choice([tz, 'UTC'])
+        sd = [dspec(t.tz_localize(tz).tz_convert(zone), 'aware') for t in ws_]
+        ed = [dspec(t.tz_localize(tz).tz_convert(zone), 'aware') for t in we_]
+    else:
+        sd = [dspec(t, 'timestamp') for t in ws_]
+        ed = [dspec(t, 'timestamp') for t in we_]
+    n = len(sd)
+    cs = gen_carrier(rnd, n, res, aware, with_end)
+    scalar = cs['form'].startswith('scalar')
+    if rnd.random() < 0.55 and not scalar:
+        ce = dict(cs)
+    else:
+        ce = gen_carrier(rnd, n, res, aware, with_end, seq_only=not scalar)
+    values = [q8(rnd) for _ in sd]
+    vform = rnd.choice(['list', 'list', 'array', 'scalar'] if n == 1 else ['list', 'list', 'array'])
+    case['data'] = {'start': sd, 'end': ed if with_end else None, 'values': values, 'container': 'scalar' if scalar else 'list', 'vform': vform,
+                    'style': style, 'dform': ('aware:' + zone) if aware else 'wall', 'mismatch': None, 'prep': False,
+                    'carrier': {'start': cs, 'end': ce if with_end else None, 'res': res}}
+    return case
+
+
 def gen_coarse_dst_case(rnd):
     """a sub-daily grid in a daylight-saving zone over whole CALENDAR days around a switch, coarsened to days over the whole grid:
     the coarse steps are the calendar days (23, 24 or 25 hours long), every fine step in exactly one of them"""
@@ -565,6 +787,10 @@ def build_data(d):
     inp = {'start': wrap(st)}
     if en is not None:
         inp['end'] = wrap(en) if len(en) == len(st) or d['container'] != 'scalar' else en[0]
+    if d.get('carrier'):       # stream `vcar`: the container / resolution of each side is spelled out
+        inp['start'] = carry(d['start'], d['carrier']['start'])
+        if en is not None:
+            inp['end'] = carry(d['end'], d['carrier']['end'])
     v = d['values']
     inp['values'] = v[0] if d['vform'] == 'scalar' else (np.array(v) if d['vform'] == 'array' else list(v))
     return inp
@@ -978,6 +1204,74 @@ def _dt_ok(dt, diff_ns, unit_ns):
     return lhs == diff_ns or abs(lhs - diff_ns) <= Fraction(diff_ns, 10 ** 9)
 
 
+def _ns(ts):
+    """instant as integer nanoseconds since the epoch (UTC; naive = as if UTC), whatever the resolution of the time stamp"""
+    return int(pd.Timestamp(ts).as_unit('ns').value)
+
+
+def own_raster(s, e, cf, tz):
+    """the raster of a coarse window [s, e) computed FROM THE WINDOW ALONE (never from the reference grid): s + j*freq for all
+    j >= 0 with s + j*freq <= e, as integer ns.  Fixed-length frequencies: plain arithmetic on instants; calendar frequencies
+    (days in a daylight-saving zone, weeks, months): pandas' calendar (trusted base)."""
+    if is_tick(cf, tz):
+        step = TICK[cf] * 10 ** 9
+        a, b = _ns(s), _ns(e)
+        return [a + j * step for j in range((b - a) // step + 1)] if b >= a else []
+    with warnings.catch_warnings():
+        warnings.simplefilter('ignore')
+        return [_ns(p) for p in pd.date_range(start=s, end=e, freq=cf, tz=tz)]
+
+
+def _classify_coarse_loss(ref, rtp, pos, winI, flat, s, e, cf, tz, facts):
+    """the minor lists of a coarse grid are not exactly the fine steps of the window [s, e): say WHICH fine steps are lost,
+    relative to the window's own raster c_0 = s (or the first anchor), c_1, ..., c_n <= e:
+      * a fine step inside [c_0, c_n) that belongs to no coarse step: kind `coarse_interval_lost` - the statement
+        EAO.C19.coarse_partition (covering [first cut, last cut)), and when no reference point lies in [c_n, e) - the window
+        reaches beyond the horizon - EAO.C19.coarse_partition_clipped / _whole: nothing of the window may be lost at all;
+      * a fine step before c_0 (anchored frequencies) or at / after c_n (the window is not a whole number of coarse steps and
+        the remainder [c_n, e) still holds reference points): kind `coarse_remainder` (known finding F-19b);
+      * a fine step outside the window in a minor list: kind `coarse_outside_window`."""
+    V = []
+    got, want = set(flat), set(winI)
+    missing = [k for k in pos if int(ref.I[k]) not in got]
+    extra = [x for x in flat if x not in want]
+    if extra:
+        V.append(_viol('coarse_partition', 'minor lists hold %d fine step(s) that do not lie in the window, first index %d' % (len(extra), extra[0]),
+                       kind='coarse_outside_window', how='extra', **facts))
+    if not missing:
+        return V
+    try:
+        cuts = own_raster(s, e, cf, tz)
+    except Exception as ex:
+        V.append(_viol('coarse_partition', 'coarse grid covers %d of %d fine steps of the window; the raster of the window could not be generated here (%s: %s)'
+                       % (len(flat), len(winI), type(ex).__name__, str(ex)[:80]), kind='coarse_loss_unclassified', how='dropped', **facts))
+        return V
+    pv = {k: _ns(rtp[k]) for k in pos}
+    inside = [k for k in missing if len(cuts) >= 2 and cuts[0] <= pv[k] < cuts[-1]]
+    lead = [k for k in missing if cuts and pv[k] < cuts[0]]
+    trail = [k for k in missing if k not in set(inside) and k not in set(lead)]
+    # hypothesis of coarse_partition_clipped / _whole on the real reference: no reference point of the window at or after the last cut
+    clipped = bool(cuts) and not any(pv[k] >= cuts[-1] for k in pos)
+    try:
+        beyond_end = bool(e > ref.end)
+    except Exception:
+        beyond_end = None
+    more = dict(facts, anchored=cf in ('W', 'MS'), raster_cuts=len(cuts), first_cut_is_start=bool(cuts) and cuts[0] == _ns(s),
+                remainder_holds_points=not clipped, window_beyond_ref_end=beyond_end)
+    if inside:
+        V.append(_viol('coarse_partition', 'coarse grid covers %d of %d fine steps of the window: %d fine step(s) INSIDE the window\'s own raster of coarse steps '
+                       '[%s, %s) (start + j*%s, %d cuts) belong to no coarse step, first lost: index %d at %s%s'
+                       % (len(flat), len(winI), len(inside), pd.Timestamp(cuts[0], tz='UTC'), pd.Timestamp(cuts[-1], tz='UTC'), cf, len(cuts),
+                          int(ref.I[inside[0]]), rtp[inside[0]],
+                          ' (no reference point in the remainder after the last cut: coarse_partition_clipped demands the whole window clipped to the reference grid)' if clipped else ''),
+                       kind='coarse_interval_lost', how='dropped', inside=len(inside), leading=len(lead), trailing=len(trail), **more))
+    if lead or trail:
+        V.append(_viol('coarse_partition', 'coarse grid covers %d of %d fine steps of the window (dropped: %d leading, %d trailing)'
+                       % (len(flat), len(winI), len(lead), len(trail)), kind='coarse_remainder',
+                       how='dropped', leading=len(lead), trailing=len(trail), inside=len(inside), **more))
+    return V
+
+
 def oracle(case, ir):
     """C19 evaluated on the real objects (pandas instants)"""
     V = []
@@ -1085,12 +1379,7 @@ def oracle(case, ir):
                 if flat != sorted(flat) or (flat and flat != [x for x in winI if flat[0] <= x <= flat[-1]]):
                     V.append(_viol('coarse_partition', 'minor lists are not consecutive', kind='coarse_not_consecutive', **facts))
                 if flat != winI:
-                    missing = [x for x in winI if x not in set(flat)]
-                    lead = [x for x in missing if flat and x < flat[0]]
-                    trail = [x for x in missing if not flat or x > flat[-1]]
-                    V.append(_viol('coarse_partition', 'coarse grid covers %d of %d fine steps of the window (dropped: %d leading, %d trailing)'
-                                   % (len(flat), len(winI), len(lead), len(trail)), kind='coarse_remainder',
-                                   how='dropped', leading=len(lead), trailing=len(trail), anchored=cf in ('W', 'MS'), **facts))
+                    V += _classify_coarse_loss(ref, rtp, pos, winI, flat, s, e, cf, tz, facts)
                 tot_ref = math.fsum(float(ref.dt[k]) for k in pos)
                 tot_c = math.fsum(float(x) for x in c.dt)
                 if flat == winI and abs(tot_ref - tot_c) > 1e-9 * max(1.0, abs(tot_ref)):
@@ -1177,6 +1466,10 @@ def oracle_values(case, ir, cur, base):
             clash = True
         expect.append(float(d['values'][hit[0]]) if hit else None)
     facts = dict(base, style=d['style'], container=d['container'], dform=d['dform'], with_end=d['end'] is not None, n=len(st))
+    if d.get('carrier'):
+        cr = d['carrier']
+        facts.update(carrier_start='%s[%s]' % (cr['start']['form'], cr['start'].get('res', '')), resolution=cr['res'],
+                     carrier_end=('%s[%s]' % (cr['end']['form'], cr['end'].get('res', ''))) if cr.get('end') else None)
     got = ir['values']
     if clash:
         if 'err' not in got or got['err'] != 'value':
@@ -1222,6 +1515,18 @@ def features(case, ir):
             f.append('%s:%s' % (k, case[k]['placement']))
     if 'cfreq' in case:
         f.append('cfreq:%s/%s' % (g['freq'], case['cfreq']))
+    if case.get('focus'):
+        f.append('focus:' + case['focus'])
+    ref = ir.get('_obj', {}).get('coarse_ref')
+    if ref is not None and 'cwindow' in case and 'err' not in ir.get('coarse', {'err': 1}):
+        try:   # how the end of the reference grid lies relative to the coarse window and its raster
+            w = case['cwindow']
+            s = loc_ctor(mk(w['s']), g['tz']) if w['s'] is not None else ref.start
+            e = loc_ctor(mk(w['e']), g['tz']) if w['e'] is not None else ref.end
+            if e > ref.end and case['cfreq'] != g['freq']:
+                f.append('coarse-beyond-end:ref-end-%s-raster' % ('on' if _ns(ref.end) in set(own_raster(s, e, case['cfreq'], g['tz'])) else 'off'))
+        except Exception:
+            pass
     if 'data' in case:
         d = case['data']
         f += ['style:' + d['style'], 'container:' + d['container'], 'dform:' + d['dform'], 'end:' + str(d['end'] is not None)]
@@ -1229,6 +1534,12 @@ def features(case, ir):
             f.append('mismatch:' + d['mismatch'])
         if d['prep']:
             f.append('prep')
+        if d.get('carrier'):
+            cr = d['carrier']
+            f.append('carrier-start:%s[%s]' % (cr['start']['form'], cr['start'].get('res', '')))
+            if cr.get('end'):
+                f.append('carrier-end:%s[%s]' % (cr['end']['form'], cr['end'].get('res', '')))
+            f.append('carrier-res:' + cr['res'])
     for k in ('grid', 'restricted', 'restricted2', 'coarse', 'values', 'prices'):
         if k in ir and 'err' in ir[k]:
             f.append('%s-error:%s' % (k, ir[k]['err']))
@@ -1273,6 +1584,12 @@ def cases(seed, n, small=False):
         yield 'grid%d' % i, gen_case(random.Random(rnd.getrandbits(48)), small=small)
     for i in range(max(10, n // 40)):
         yield 'coarsedst%d' % i, gen_coarse_dst_case(random.Random(rnd.getrandbits(48)))
+    # (new streams draw from generators of their own, so that the cases above stay what they were)
+    rnd2 = random.Random(seed * 104729 + 1911)
+    for i in range(max(20, n // 12)):
+        yield 'cclip%d' % i, gen_clip_case(random.Random(rnd2.getrandbits(48)))
+    for i in range(max(40, n // 5)):
+        yield 'vcar%d' % i, gen_carrier_case(random.Random(rnd2.getrandbits(48)))
 
 
 def exhaustive_windows(tmax=48):
